@@ -1,12 +1,16 @@
 /-
 Compressed-block decoding (zstd_decompress_block.c): literals section, sequences section header with the
 three table modes, the interleaved FSE sequence bitstream (ZSTD_decodeSequence), and sequence execution over
-the history `dict ++ output so far` (ZSTD_execSequence checks).
+the history `dict ++ output so far` (ZSTD_execSequence checks; the execution itself lives in Model/Exec.lean).
 -/
 import ZstdVerif.Model.Huf
 import ZstdVerif.Model.Rep
+import ZstdVerif.Model.Exec
 namespace ZstdVerif.Block
 open ZstdVerif.Gen
+
+-- `Seq` (one decoded sequence), `Out` (output under construction) and `copyMatch` are defined in Model/Exec.lean
+export ZstdVerif.Exec (Seq Out copyMatch)
 
 /-- entropy state carried from block to block (and loaded from a dictionary) -/
 structure Entropy where
@@ -25,13 +29,6 @@ inductive LitMode where | raw | rle | compressed | treeless
 deriving DecidableEq, Repr, Inhabited
 
 /-- what the decoder saw in one block (decode trace; consumed by Conform / Serialize) -/
-structure Seq where
-  ll : Nat
-  ml : Nat
-  offset : Nat          -- actual match distance
-  ofValue : Nat         -- offBase-style value as coded (offset code semantics before repcode resolution)
-deriving Repr, Inhabited
-
 structure Trace where
   litMode : LitMode := .raw
   litStreams : Nat := 1
@@ -126,79 +123,22 @@ def buildSeqTable (mode : Nat) (src : Bytes) (ip iend : Nat) (maxSym maxLog : Na
     if nc.tableLog > maxLog then throw (.corruptionAt "Block:124")
     return (FSE.buildSeqTable nc.norm nc.tableLog base bits, nc.tableLog, nc.used)
 
-/-- output under construction: `out` holds everything regenerated so far (all frames), `frameStart` the
-offset where the current frame's content begins, `dict` the dictionary content that precedes it -/
-structure Out where
-  out : ByteArray
-  frameStart : Nat
-  cap : Nat
+/-- result of the sequence decoding loop: the sequences, the bit reader after the last one, the repeat-offset history after the last one -/
+structure SeqDec where
+  seqs : Array Seq
+  r : BitR
+  rep : Array Nat
 
-/-- copy a match of length `ml` at distance `off` (may overlap; may reach into the dictionary) -/
-def copyMatch (dict : Bytes) (o : ByteArray) (frameStart off ml : Nat) : ByteArray := Id.run do
-  let mut out := o
-  for _ in [0:ml] do
-    let pos := out.size - frameStart
-    if off ≤ pos then
-      out := out.push (out[out.size - off]!)
-    else
-      out := out.push (dict[dict.size - (off - pos)]!)
-  return out
-
-/-- ZSTD_decompressBlock_internal on the block body `src[start, start+cSize)` -/
-def decodeBlock (src : Bytes) (start cSize : Nat) (ent : Entropy) (dict : Bytes) (o : Out) (blockSizeMax : Nat) :
-    R (ByteArray × Entropy × Trace) := do
-  if cSize > blockSizeMax then throw (.srcSizeWrongAt "Block:148")
-  let dstCap := o.cap - o.out.size
-  let lr ← decodeLiterals src start cSize ent blockSizeMax dstCap
-  let mut ip := start + lr.used
-  let iend := start + cSize
-  let mut tr : Trace := { litMode := lr.mode, litStreams := lr.streams, litSize := lr.lits.size }
-  -- ZSTD_decodeSeqHeaders
-  if iend - ip < MIN_SEQUENCES_SIZE then throw (.srcSizeWrongAt "Block:155")
-  let mut nbSeq := src.u8 ip
-  ip := ip + 1
-  if nbSeq > 0x7F then
-    if nbSeq == 0xFF then
-      if ip + 2 > iend then throw (.srcSizeWrongAt "Block:160")
-      nbSeq := src.le16 ip + LONGNBSEQ
-      ip := ip + 2
-    else
-      if ip ≥ iend then throw (.srcSizeWrongAt "Block:164")
-      nbSeq := ((nbSeq - 0x80) <<< 8) + src.u8 ip
-      ip := ip + 1
-  tr := { tr with nbSeq := nbSeq }
-  let mut e := lr.ent
-  let mut out := o.out
-  if nbSeq == 0 then
-    if ip != iend then throw (.corruptionAt "Block:171")
-    if lr.lits.size > dstCap then throw .dstTooSmall
-    return (out ++ lr.lits, e, tr)
-  if ip + 1 > iend then throw (.srcSizeWrongAt "Block:174")
-  let mb := src.u8 ip
-  if mb &&& 3 != 0 then throw (.corruptionAt "Block:176")
-  ip := ip + 1
-  let (llT, llLog, u1) ← buildSeqTable (mb >>> 6) src ip iend MaxLL LLFSELog LL_base LL_bits LL_defaultDTable LL_DEFAULTNORMLOG e.ll e.llLog e.fseValid
-  ip := ip + u1
-  let (ofT, ofLog, u2) ← buildSeqTable ((mb >>> 4) &&& 3) src ip iend MaxOff OffFSELog OF_base OF_bits OF_defaultDTable OF_DEFAULTNORMLOG e.of e.ofLog e.fseValid
-  ip := ip + u2
-  let (mlT, mlLog, u3) ← buildSeqTable ((mb >>> 2) &&& 3) src ip iend MaxML MLFSELog ML_base ML_bits ML_defaultDTable ML_DEFAULTNORMLOG e.ml e.mlLog e.fseValid
-  ip := ip + u3
-  tr := { tr with modes := (mb >>> 6, (mb >>> 4) &&& 3, (mb >>> 2) &&& 3), tableSizes := (u1, u2, u3), bitstreamSize := iend - ip }
-  e := { e with ll := llT, llLog := llLog, of := ofT, ofLog := ofLog, ml := mlT, mlLog := mlLog, fseValid := true }
-  if dstCap == 0 then throw .dstTooSmall
-  -- ZSTD_decompressSequences
-  let r0 ← match BitR.init src ip (iend - ip) with
-    | .ok r => pure r
-    | .error er => throw (.corruptionAt ("Block:190<" ++ er.site))
-  let (sLL0, r1) := r0.read llLog
-  let (sOF0, r2) := r1.read ofLog
-  let (sML0, r3) := r2.read mlLog
+/-- the DECODING half of the loop of ZSTD_decompressSequences_body: `nbSeq` times ZSTD_decodeSequence (offset code and its extra
+bits with the repeat-offset resolution, match length, literal length, then the three FSE state updates except after the last
+sequence).  Nothing in here can fail: table lookups are total and `BitR.read` never throws - reading below the start of the stream
+only sets the sticky `over` flag, which is looked at once, after the loop (`BitR.atEnd`). -/
+def decodeSeqs (llT ofT mlT : Array SeqCell) (nbSeq : Nat) (sLL0 sOF0 sML0 : Nat) (r0 : BitR) (rep0 : Array Nat) : SeqDec := Id.run do
   let mut sLL := sLL0
   let mut sOF := sOF0
   let mut sML := sML0
-  let mut r := r3
-  let mut rep := e.rep
-  let mut litPos := 0
+  let mut r := r0
+  let mut rep := rep0
   let mut seqs : Array Seq := Array.mkEmpty nbSeq
   for k in [0:nbSeq] do
     let cLL := llT[sLL]!
@@ -240,19 +180,86 @@ def decodeBlock (src : Bytes) (start cSize : Nat) (ent : Entropy) (dict : Bytes)
       let (z, r''') := r''.read cOF.nbBits
       sOF := cOF.nextState + z
       r := r'''
-    -- ZSTD_execSequence
-    if llen + mlen > o.cap - out.size then throw .dstTooSmall
-    if llen > lr.lits.size - litPos then throw (.corruptionAt "Block:249")
-    let pos := out.size + llen - o.frameStart
-    if offset > pos + dict.size then throw (.corruptionAt "Block:251")
-    out := out ++ lr.lits.extract litPos (litPos + llen)
-    litPos := litPos + llen
-    out := copyMatch dict out o.frameStart offset mlen
     seqs := seqs.push { ll := llen, ml := mlen, offset := offset, ofValue := ofValue }
-  if !r.atEnd then throw (.corruptionAt "Block:256")
-  let lastLL := lr.lits.size - litPos
-  if lastLL > o.cap - out.size then throw .dstTooSmall
-  out := out ++ lr.lits.extract litPos lr.lits.size
-  return (out, { e with rep := rep }, { tr with seqs := seqs })
+  return { seqs := seqs, r := r, rep := rep }
+
+/-- everything ZSTD_decompressBlock_internal has decoded before the first output byte of the block is written -/
+structure Prepared where
+  lits : ByteArray
+  /-- entropy state after the block (tables of this block, repeat offsets after its last sequence) -/
+  ent : Entropy
+  tr : Trace
+  seqs : Array Seq
+  /-- verdict on the sequence bit stream: `!BIT_endOfDStream` → corruption_detected (`.ok ()` when the block has no sequences) -/
+  streamCheck : R Unit
+
+/-- first half of ZSTD_decompressBlock_internal on the block body `src[start, start+cSize)`: ZSTD_decodeLiteralsBlock,
+ZSTD_decodeSeqHeaders, and the DECODING of all sequences (`dstCap` = remaining output room; used by the literals and by the
+`dstCapacity == 0 && nbSeq > 0` check only).
+
+Order of errors.  The C loop interleaves `ZSTD_decodeSequence` (k) / `ZSTD_execSequence` (k).  Decoding a sequence cannot fail
+(`decodeSeqs`) and does not depend on the output, so decoding ALL sequences here and executing them afterwards (`finish`) reports
+the same first error as the interleaved loop: the first failing `Exec.step` in sequence order, else the end-of-stream verdict,
+else the last-literals capacity check.  A block without sequences is the degenerate case: no `Exec.step`, no bit stream, and the
+whole literals buffer is the last literal segment (`lits.size > dstCap` → dstSize_tooSmall in `Exec.lastLiterals`). -/
+def prepare (src : Bytes) (start cSize : Nat) (ent : Entropy) (blockSizeMax dstCap : Nat) : R Prepared := do
+  if cSize > blockSizeMax then throw (.srcSizeWrongAt "Block:148")
+  let lr ← decodeLiterals src start cSize ent blockSizeMax dstCap
+  let mut ip := start + lr.used
+  let iend := start + cSize
+  let mut tr : Trace := { litMode := lr.mode, litStreams := lr.streams, litSize := lr.lits.size }
+  -- ZSTD_decodeSeqHeaders
+  if iend - ip < MIN_SEQUENCES_SIZE then throw (.srcSizeWrongAt "Block:155")
+  let mut nbSeq := src.u8 ip
+  ip := ip + 1
+  if nbSeq > 0x7F then
+    if nbSeq == 0xFF then
+      if ip + 2 > iend then throw (.srcSizeWrongAt "Block:160")
+      nbSeq := src.le16 ip + LONGNBSEQ
+      ip := ip + 2
+    else
+      if ip ≥ iend then throw (.srcSizeWrongAt "Block:164")
+      nbSeq := ((nbSeq - 0x80) <<< 8) + src.u8 ip
+      ip := ip + 1
+  tr := { tr with nbSeq := nbSeq }
+  let mut e := lr.ent
+  if nbSeq == 0 then
+    if ip != iend then throw (.corruptionAt "Block:171")
+    return { lits := lr.lits, ent := e, tr := tr, seqs := #[], streamCheck := .ok () }
+  if ip + 1 > iend then throw (.srcSizeWrongAt "Block:174")
+  let mb := src.u8 ip
+  if mb &&& 3 != 0 then throw (.corruptionAt "Block:176")
+  ip := ip + 1
+  let (llT, llLog, u1) ← buildSeqTable (mb >>> 6) src ip iend MaxLL LLFSELog LL_base LL_bits LL_defaultDTable LL_DEFAULTNORMLOG e.ll e.llLog e.fseValid
+  ip := ip + u1
+  let (ofT, ofLog, u2) ← buildSeqTable ((mb >>> 4) &&& 3) src ip iend MaxOff OffFSELog OF_base OF_bits OF_defaultDTable OF_DEFAULTNORMLOG e.of e.ofLog e.fseValid
+  ip := ip + u2
+  let (mlT, mlLog, u3) ← buildSeqTable ((mb >>> 2) &&& 3) src ip iend MaxML MLFSELog ML_base ML_bits ML_defaultDTable ML_DEFAULTNORMLOG e.ml e.mlLog e.fseValid
+  ip := ip + u3
+  tr := { tr with modes := (mb >>> 6, (mb >>> 4) &&& 3, (mb >>> 2) &&& 3), tableSizes := (u1, u2, u3), bitstreamSize := iend - ip }
+  e := { e with ll := llT, llLog := llLog, of := ofT, ofLog := ofLog, ml := mlT, mlLog := mlLog, fseValid := true }
+  if dstCap == 0 then throw .dstTooSmall
+  -- ZSTD_decompressSequences
+  let r0 ← match BitR.init src ip (iend - ip) with
+    | .ok r => pure r
+    | .error er => throw (.corruptionAt ("Block:190<" ++ er.site))
+  let (sLL0, r1) := r0.read llLog
+  let (sOF0, r2) := r1.read ofLog
+  let (sML0, r3) := r2.read mlLog
+  let sd := decodeSeqs llT ofT mlT nbSeq sLL0 sOF0 sML0 r3 e.rep
+  return { lits := lr.lits, ent := { e with rep := sd.rep }, tr := { tr with seqs := sd.seqs }, seqs := sd.seqs,
+           streamCheck := if !sd.r.atEnd then .error (.corruptionAt "Block:256") else .ok () }
+
+/-- second half of ZSTD_decompressBlock_internal: execute the decoded sequences on the output (Exec.run: ZSTD_execSequence in
+sequence order, then the end-of-stream verdict, then the last literals).  The entropy state and the trace are handed out only on success. -/
+def finish (dict : Bytes) (o : Out) (p : Prepared) : R (ByteArray × Entropy × Trace) :=
+  match Exec.run dict o p.lits p.seqs.toList p.streamCheck with
+  | .ok out => .ok (out, p.ent, p.tr)
+  | .error e => .error e
+
+/-- ZSTD_decompressBlock_internal on the block body `src[start, start+cSize)` -/
+def decodeBlock (src : Bytes) (start cSize : Nat) (ent : Entropy) (dict : Bytes) (o : Out) (blockSizeMax : Nat) :
+    R (ByteArray × Entropy × Trace) :=
+  prepare src start cSize ent blockSizeMax (o.cap - o.out.size) >>= finish dict o
 
 end ZstdVerif.Block
